@@ -93,7 +93,7 @@ Definition sub_to_string (s : subspace) : list N := dec (sub_begin s) ++ [58] ++
 (* int(str) for ASCII text: surrounding whitespace, an optional sign, decimal digits with single
    underscores between digits.  (Non-ASCII digits/whitespace are outside the model; the harness
    only feeds ASCII.) *)
-Definition is_space (c : N) : bool := (c =? 32) || ((9 <=? c) && (c <=? 13)) || ((28 <=? c) && (c <=? 31)).
+Definition is_space (c : N) : bool := (c =? 32) || ((9 <=? c) && (c <=? 13)).   (* Py_ISSPACE; an ASCII str is not normalised first *)
 Fixpoint lstrip (l : list N) : list N :=
   match l with c :: r => if is_space c then lstrip r else l | [] => [] end.
 Definition strip (l : list N) : list N := rev (lstrip (rev (lstrip l))).
